@@ -1,6 +1,7 @@
 package gen
 
 import (
+	"encoding/json"
 	"fmt"
 )
 
@@ -333,8 +334,43 @@ func (g *G) perturb(x interface{}, depth int) interface{} {
 		vv[i] = g.perturb(vv[i], depth-1)
 		return vv
 	default:
+		if g.P(1, 2) {
+			return twin(x)
+		}
 		return g.Scalar()
 	}
+}
+
+// twin returns a scalar of another JSON type that prints like the given one (1 and "1", true and
+// "true", null and "<nil>" / "null"): equal to a careless comparison, different values.
+func twin(x interface{}) interface{} {
+	switch vv := x.(type) {
+	case nil:
+		return "<nil>"
+	case bool:
+		if vv {
+			return "true"
+		}
+		return "false"
+	case float64:
+		js, _ := json.Marshal(vv)
+		return string(js)
+	case string:
+		switch vv {
+		case "true":
+			return true
+		case "false":
+			return false
+		case "<nil>", "null":
+			return nil
+		}
+		var f float64
+		if json.Unmarshal([]byte(vv), &f) == nil {
+			return f
+		}
+		return vv + " "
+	}
+	return x
 }
 
 // MatchBacktrack generates a case aimed at the isolation of backtracking branches: a sub-pattern
